@@ -110,3 +110,40 @@ Example unsigned64_witness :
   encode_offset a (-16717024) = Some 18446744073692834592 /\ decode_unsigned a 18446744073692834592 = (-16717024) mod 2 ^ 64 /\
   encode_offset f 1099511627775 = Some (1099511627775 * 8) /\ encode_offset f (-1) = None /\ encode_offset f 1099511627776 = None.
 Proof. cbv zeta. unfold wf_contig64. cbn [vsize bits shift discard]. repeat split; try lia; vm_compute; reflexivity. Qed.
+
+(* what must NOT change, 8-byte unsigned fields: patching keeps every bit outside the field *)
+Theorem unsigned64_write_offset_exact f old off w :
+  ty f = UnsignedOffset -> wf_contig64 f -> int64 off -> 0 <= old ->
+  write_offset f old off = Some w ->
+  Z.land w (Z.lnot (field_mask f)) = Z.land old (Z.lnot (field_mask f)).
+Proof.
+  intros Hty Hwf Hoff Hold Hw. pose proof Hwf as (Hv & Hb & Hs & Hfit & Hd).
+  apply write_offset_or in Hw. destruct Hw as (m & He & ->).
+  unfold encode_offset in He. rewrite Hv in He. cbn [Z.eqb Pos.eqb orb] in He.
+  pose proof (unsigned64_spec f off Hty Hwf Hoff) as Hsp. rewrite He in Hsp. destruct Hsp as ((_ & Hr) & ->).
+  rewrite Z.land_lor_distr_l. unfold field_mask. rewrite contig_outside_clear by lia. apply Z.lor_0_r.
+Qed.
+
+(* completeness: every field value r is reached, by the int64 image of the uint64 displacement r * 2^discard *)
+Theorem unsigned64_surjective f r :
+  ty f = UnsignedOffset -> wf_contig64 f -> bits f + discard f <= 64 -> 0 <= r < 2 ^ bits f ->
+  let off := sextz 64 (r * 2 ^ discard f) in
+  int64 off /\ off mod 2 ^ 64 = r * 2 ^ discard f /\ encode_offset f off = Some (r * 2 ^ shift f).
+Proof.
+  intros Hty Hwf Hbd Hr off. pose proof Hwf as (Hv & Hb & Hs & Hfit & Hd).
+  pose proof (pow2_pos (discard f) ltac:(lia)) as Hpd.
+  assert (Hu : 0 <= r * 2 ^ discard f < 2 ^ 64).
+  { pose proof (mul_pow2_bound r (bits f) (discard f) ltac:(lia) ltac:(lia) Hr) as Hm.
+    pose proof (pow2_le (bits f + discard f) 64 ltac:(lia)). lia. }
+  assert (Hi : int64 off).
+  { subst off. unfold int64. pose proof (sextz_range 64 (r * 2 ^ discard f) ltac:(lia)) as H. change (2 ^ (64 - 1)) with (2 ^ 63) in H. exact H. }
+  assert (Hm : off mod 2 ^ 64 = r * 2 ^ discard f).
+  { subst off. rewrite sextz_mod_id by lia. apply Z.mod_small. exact Hu. }
+  split; [exact Hi|]. split; [exact Hm|].
+  unfold encode_offset. rewrite Hv. cbn [Z.eqb Pos.eqb orb].
+  pose proof (unsigned64_spec f off Hty Hwf Hi) as Hsp. unfold u64 in Hsp. rewrite Hm in Hsp.
+  assert (Hok : unsigned_ok f (r * 2 ^ discard f)).
+  { unfold unsigned_ok. rewrite mul_pow2_mod, mul_pow2_div by lia. split; [reflexivity | exact Hr]. }
+  destruct (encode_offset64 f off) as [m|]; [|contradiction].
+  destruct Hsp as (_ & ->). rewrite mul_pow2_div by lia. reflexivity.
+Qed.
